@@ -162,6 +162,29 @@ type GenOpt struct {
 
 func pickW(r *rng.R, vals []int, w []int) int { return vals[r.Pick(w...)] }
 
+// GenRejectLeader draws 0-3 reject-leader entries (none with probability nonePct %): mostly several values of the SAME key (zone),
+// sometimes a host entry in between, in shuffled order - so that stores match the first, a later, or no entry.
+func GenRejectLeader(r *rng.R, nonePct int) [][2]string {
+	if r.Pct(nonePct) {
+		return nil
+	}
+	n := 1 + r.Pick(40, 35, 25)
+	zs := []string{"z1", "z2", "z3", "z4"}
+	for i := len(zs) - 1; i > 0; i-- {
+		j := r.Intn(i + 1)
+		zs[i], zs[j] = zs[j], zs[i]
+	}
+	var out [][2]string
+	for i := 0; i < n; i++ {
+		if i > 0 && r.Pct(20) {
+			out = append(out, [2]string{"host", "h" + fmt.Sprint(1+r.Intn(3))})
+		} else {
+			out = append(out, [2]string{"zone", zs[i]})
+		}
+	}
+	return out
+}
+
 func Generate(r *rng.R, o GenOpt) ClusterSpec {
 	var c ClusterSpec
 	tag := func(s string) { c.Tags = append(c.Tags, s) }
@@ -194,10 +217,8 @@ func Generate(r *rng.R, o GenOpt) ClusterSpec {
 	case 3:
 		c.Cfg.Iso = "rack"
 	}
-	if r.Pct(15) {
-		c.Cfg.RejectLeader = [][2]string{{"zone", "z" + fmt.Sprint(1+r.Intn(3))}}
-		tag("cfg:reject-leader")
-	}
+	c.Cfg.RejectLeader = GenRejectLeader(r, 78)
+	tag(fmt.Sprintf("cfg:reject-leader-entries=%d", len(c.Cfg.RejectLeader)))
 	tag(fmt.Sprintf("cfg:max-replicas=%d", c.Cfg.MaxReplicas))
 	tag(fmt.Sprintf("cfg:labels=%d", len(c.Cfg.Labels)))
 	tag("cfg:iso=" + c.Cfg.Iso)
@@ -539,14 +560,15 @@ func b(v bool) string {
 
 func zl(xs []string) string { return "[" + strings.Join(xs, "; ") + "]" }
 
-// StoreFlags are the predicates the filters evaluate, read from the real StoreInfo.
+// StoreFlags are the predicates the filters evaluate.
 type StoreFlags struct {
 	ID                                                                   uint64
 	State                                                                string
 	Down, Disc, Busy, Low, NoAdd, NoRemove, Snap, Pend, Pause, RejectLdr bool
 }
 
-func (bt *Built) Flags(s *core.StoreInfo) StoreFlags {
+// RealFlags reads the predicates back from the real StoreInfo / options (through the code under test).
+func (bt *Built) RealFlags(s *core.StoreInfo) StoreFlags {
 	o := bt.TC.GetOpts()
 	st := "SUp"
 	if s.IsOffline() {
@@ -562,8 +584,80 @@ func (bt *Built) Flags(s *core.StoreInfo) StoreFlags {
 		Pause: !s.AllowLeaderTransfer(), RejectLdr: o.CheckLabelProperty(opt.RejectLeader, s.GetLabels())}
 }
 
-func (bt *Built) CoqStore(s *core.StoreInfo) string {
+// OracleFlags computes the same predicates INDEPENDENTLY of the code under test, straight from the case specification:
+// state, heartbeat class, busy, space class, limits, snapshot / pending counts against the documented defaults (3 / 16),
+// leader pause, and reject-leader = some configured (key, value) entry equals some label of the store.
+func (bt *Built) OracleFlags(id uint64) (StoreFlags, bool) {
+	for _, s := range bt.Spec.Stores {
+		if s.ID != id {
+			continue
+		}
+		f := StoreFlags{ID: id, State: []string{"SUp", "SOffline", "STombstone"}[s.State], Down: s.HB == 2, Disc: s.HB >= 1, Busy: s.Busy,
+			Low: s.LowSpace, NoAdd: s.NoAdd, NoRemove: s.NoRemove, Snap: s.SendSnap > 3 || s.RecvSnap > 3, Pend: s.Pending > 16, Pause: s.Pause}
+		for _, e := range bt.Spec.Cfg.RejectLeader {
+			for _, l := range s.Labels {
+				if l[0] == e[0] && l[1] == e[1] {
+					f.RejectLdr = true
+				}
+			}
+		}
+		return f, true
+	}
+	return StoreFlags{}, false
+}
+
+// Flags is what the models and monitors are given: the independent oracle (the real read-back only for a store the
+// specification does not know).
+func (bt *Built) Flags(s *core.StoreInfo) StoreFlags {
+	if f, ok := bt.OracleFlags(s.GetID()); ok {
+		return f
+	}
+	return bt.RealFlags(s)
+}
+
+// PredicateDiffs is the differential check of the read-back against the oracle: (field, description) per disagreement.
+func (bt *Built) PredicateDiffs() [][2]string {
+	var out [][2]string
+	for _, s := range bt.TC.GetStores() {
+		or, ok := bt.OracleFlags(s.GetID())
+		if !ok {
+			continue
+		}
+		re := bt.RealFlags(s)
+		cmp := func(name string, a, b interface{}) {
+			if a != b {
+				out = append(out, [2]string{name, fmt.Sprintf("store %d labels %v: the code says %s=%v, the specification says %v (reject-leader entries %v)",
+					s.GetID(), s.GetLabels(), name, b, a, bt.Spec.Cfg.RejectLeader)})
+			}
+		}
+		cmp("state", or.State, re.State)
+		cmp("down", or.Down, re.Down)
+		cmp("disconnected", or.Disc, re.Disc)
+		cmp("busy", or.Busy, re.Busy)
+		cmp("low-space", or.Low, re.Low)
+		cmp("add-limit", or.NoAdd, re.NoAdd)
+		cmp("remove-limit", or.NoRemove, re.NoRemove)
+		cmp("snapshots", or.Snap, re.Snap)
+		cmp("pending-peers", or.Pend, re.Pend)
+		cmp("pause-leader", or.Pause, re.Pause)
+		cmp("reject-leader", or.RejectLdr, re.RejectLdr)
+	}
+	sort.Slice(out, func(i, j int) bool { return out[i][0] < out[j][0] })
+	return out
+}
+
+// CoqStoreView prints a store as a derived cluster view shows it (scatter-range's RangeCluster recomputes pending-peer count and
+// space from the regions of the range): these two predicates are read from the view, the others from the oracle.
+func (bt *Built) CoqStoreView(s *core.StoreInfo) string {
 	f := bt.Flags(s)
+	re := bt.RealFlags(s)
+	f.Pend, f.Low = re.Pend, re.Low
+	return bt.coqStoreWith(s, f)
+}
+
+func (bt *Built) CoqStore(s *core.StoreInfo) string { return bt.coqStoreWith(s, bt.Flags(s)) }
+
+func (bt *Built) coqStoreWith(s *core.StoreInfo, f StoreFlags) string {
 	var ls []string
 	seen := map[int]bool{}
 	for _, l := range s.GetLabels() {
@@ -645,12 +739,21 @@ func isoID(iso string) int {
 	return KeyID(iso)
 }
 
+// CoqReject prints the configured reject-leader entries (from the specification).
+func (bt *Built) CoqReject() string {
+	var xs []string
+	for _, e := range bt.Spec.Cfg.RejectLeader {
+		xs = append(xs, fmt.Sprintf("(%d, %s)", KeyID(e[0]), CoqVal(e[1])))
+	}
+	return zl(xs)
+}
+
 func (bt *Built) CoqConfig() string {
 	o := bt.TC.GetOpts()
 	joint := bt.TC.IsFeatureSupported(versioninfo.JointConsensus) && o.IsUseJointConsensus()
-	return fmt.Sprintf("Config %d %s %d %s %s %s %s %s %s %s", o.GetMaxReplicas(), keyList(o.GetLocationLabels()), isoID(o.GetIsolationLevel()),
+	return fmt.Sprintf("Config %d %s %d %s %s %s %s %s %s %s %s", o.GetMaxReplicas(), keyList(o.GetLocationLabels()), isoID(o.GetIsolationLevel()),
 		b(o.IsRemoveDownReplicaEnabled()), b(o.IsReplaceOfflineReplicaEnabled()), b(o.IsMakeUpReplicaEnabled()), b(o.IsRemoveExtraReplicaEnabled()),
-		b(o.IsLocationReplacementEnabled()), b(o.IsPlacementRulesEnabled()), b(joint))
+		b(o.IsLocationReplacementEnabled()), b(o.IsPlacementRulesEnabled()), b(joint), bt.CoqReject())
 }
 
 func coqRule(r *placement.Rule) string {
